@@ -5,6 +5,8 @@ import (
 	"encoding/json"
 	"fmt"
 	"reflect"
+	"strings"
+	"sync"
 
 	"github.com/Eyevinn/mp4ff/aac"
 	"github.com/Eyevinn/mp4ff/avc"
@@ -31,8 +33,51 @@ var c19AACFreqs = []int{96000, 88200, 64000, 48000, 44100, 32000, 24000, 22050, 
 var c19AACObjs = []byte{aac.AAClc, aac.HEAACv1, aac.HEAACv2}
 var c19Chan = []int{2, 1, 2, 3, 3, 4, 4, 5} // channels per acmod (ETSI TS 102 366 table 4.3)
 
+// c19VideoMat: the parameter sets of every SPS-level C15 deviation (profiles, chroma formats, cropping, VUI with every
+// aspect_ratio_idc, ...) with the dimensions the reference syntax model derives from them
+type c19VMat struct {
+	Name          string
+	vps, sps, pps []byte
+	w, h          uint
+}
+
+var c19VideoOnce sync.Once
+var c19AVCMats, c19HEVCMats []c19VMat
+
+func c19VideoMats() ([]c19VMat, []c19VMat) {
+	c19VideoOnce.Do(func() {
+		for _, d := range avcDeviations() {
+			if !strings.HasPrefix(d.Name, "sps.") {
+				continue
+			}
+			sp, pp, _ := avcBuild([]dev{d})
+			w, h := sp.Dimensions()
+			c19AVCMats = append(c19AVCMats, c19VMat{Name: d.Name, sps: sp.NAL(), pps: pp.NAL(sp.ChromaIDC()), w: w, h: h})
+		}
+		for _, d := range hevcDeviations() {
+			if !strings.HasPrefix(d.Name, "sps.") {
+				continue
+			}
+			sp, pp, _, ok := hevcBuild([]hdev{d})
+			if !ok {
+				continue
+			}
+			w, h := sp.Dimensions()
+			v, _ := hexDecode(c19HVPS)
+			c19HEVCMats = append(c19HEVCMats, c19VMat{Name: d.Name, vps: v, sps: sp.NAL(), pps: pp.NAL(), w: w, h: h})
+		}
+	})
+	return c19AVCMats, c19HEVCMats
+}
+
 func c19NrParams(kind int) int {
 	switch kind {
+	case 24:
+		a, _ := c19VideoMats()
+		return len(a)
+	case 25:
+		_, h := c19VideoMats()
+		return len(h)
 	case 20:
 		return len(c19AACFreqs) * len(c19AACObjs)
 	case 21:
@@ -108,7 +153,7 @@ func hx(s string) []byte { b, _ := hexDecode(s); return b }
 
 func c19Media(kind int) string {
 	switch kind {
-	case 0, 1, 2, 3, 4, 5, 14, 15:
+	case 0, 1, 2, 3, 4, 5, 14, 15, 24, 25:
 		return "video"
 	case 6, 7, 8, 9, 20, 21, 22:
 		return "audio"
@@ -155,6 +200,12 @@ func c19Apply(init *mp4.InitSegment, op c19Op) error {
 		return trak.SetStppDescriptor("http://www.w3.org/ns/ttml", "", "image/png")
 	case 11:
 		return trak.SetWvttDescriptor("")
+	case 24:
+		a, _ := c19VideoMats()
+		return trak.SetAVCDescriptor("avc1", [][]byte{a[op.Par].sps}, [][]byte{a[op.Par].pps}, true)
+	case 25:
+		_, h := c19VideoMats()
+		return trak.SetHEVCDescriptor("hvc1", [][]byte{h[op.Par].vps}, [][]byte{h[op.Par].sps}, [][]byte{h[op.Par].pps}, nil, true)
 	case 20:
 		return trak.SetAACDescriptor(c19AACObjs[op.Par%3], c19AACFreqs[op.Par/3])
 	case 21:
@@ -345,6 +396,36 @@ func c19Run(c *vf.Ctx, h *c19History) string {
 				if stsd.Stpp == nil || stsd.Stpp.Namespace != "http://www.w3.org/ns/ttml" || stsd.Stpp.AuxiliaryMimeTypes != "image/png" {
 					return fail("stpp config "+where, "stpp entry carries the supplied strings", fmt.Sprintf("track %d", i))
 				}
+			case 24:
+				a, _ := c19VideoMats()
+				m := a[op.Par]
+				e := stsd.AvcX
+				if e == nil || e.Type() != "avc1" || e.AvcC == nil {
+					return fail("avc sample entry "+where, "sample entry of the requested type with avcC", fmt.Sprintf("track %d (%s)", i, m.Name))
+				}
+				if uint(e.Width) != m.w || uint(e.Height) != m.h {
+					return fail("avc dimensions "+where, "sample entry dimensions equal the dimensions coded in the supplied SPS", fmt.Sprintf("track %d (%s): %dx%d, SPS codes %dx%d", i, m.Name, e.Width, e.Height, m.w, m.h))
+				}
+				cr := e.AvcC.DecConfRec
+				if len(cr.SPSnalus) != 1 || !bytes.Equal(cr.SPSnalus[0], m.sps) || len(cr.PPSnalus) != 1 || !bytes.Equal(cr.PPSnalus[0], m.pps) {
+					return fail("avcC parameter sets "+where, "parameter sets carried verbatim", fmt.Sprintf("track %d (%s)", i, m.Name))
+				}
+			case 25:
+				_, hm := c19VideoMats()
+				m := hm[op.Par]
+				e := stsd.HvcX
+				if e == nil || e.Type() != "hvc1" || e.HvcC == nil {
+					return fail("hevc sample entry "+where, "sample entry of the requested type with hvcC", fmt.Sprintf("track %d (%s)", i, m.Name))
+				}
+				if uint(e.Width) != m.w || uint(e.Height) != m.h {
+					return fail("hevc dimensions "+where, "sample entry dimensions equal the dimensions coded in the supplied SPS", fmt.Sprintf("track %d (%s): %dx%d, SPS codes %dx%d", i, m.Name, e.Width, e.Height, m.w, m.h))
+				}
+				for typ, want := range map[hevc.NaluType][]byte{hevc.NALU_VPS: m.vps, hevc.NALU_SPS: m.sps, hevc.NALU_PPS: m.pps} {
+					got := e.HvcC.GetNalusForType(typ)
+					if len(got) != 1 || !bytes.Equal(got[0], want) {
+						return fail("hvcC parameter sets "+where, "parameter sets carried verbatim", fmt.Sprintf("track %d (%s) type %d", i, m.Name, typ))
+					}
+				}
 			case 20:
 				obj, f := c19AACObjs[op.Par%3], c19AACFreqs[op.Par/3]
 				if stsd.Mp4a == nil || stsd.Mp4a.Esds == nil {
@@ -445,7 +526,13 @@ func c19Run(c *vf.Ctx, h *c19History) string {
 		if err := f.Init.Encode(&re); err != nil || !bytes.Equal(re.Bytes(), enc.Bytes()) {
 			return fail("init re-encode differs", "decode then encode reproduces the bytes", fmt.Sprintf("path %d: %v", path, err))
 		}
-		if d := deepeq.Diff(init.Moov, f.Init.Moov, &deepeq.Options{Ignore: c19Ignore}); d != "" {
+		// ChromaFormat and the bit depths are not part of the AVC record for profiles 66/77/88 (ISO/IEC 14496-15
+		// 5.3.3.1.2): the built record holds what the SPS implies, the record read back holds zeros, and no byte of the
+		// box distinguishes the two. They are left out of the tree comparison for those profiles only.
+		restore := c19MaskLowProfileAvcC(init.Moov)
+		d := deepeq.Diff(init.Moov, f.Init.Moov, &deepeq.Options{Ignore: c19Ignore})
+		restore()
+		if d != "" {
 			return fail("decoded tree differs from built tree", "the init decodes to an equal tree", fmt.Sprintf("path %d: %s", path, d))
 		}
 		files[path] = f
@@ -485,6 +572,28 @@ func c19Run(c *vf.Ctx, h *c19History) string {
 
 // c19Ignore lists fields that legitimately differ between a built and a decoded tree:
 // positions recorded by the decoder and private decode bookkeeping.
+func c19MaskLowProfileAvcC(moov *mp4.MoovBox) (restore func()) {
+	var undo []func()
+	for _, tr := range moov.Traks {
+		e := tr.Mdia.Minf.Stbl.Stsd.AvcX
+		if e == nil || e.AvcC == nil {
+			continue
+		}
+		r := &e.AvcC.DecConfRec
+		switch r.AVCProfileIndication {
+		case 66, 77, 88:
+			cf, bl, bc := r.ChromaFormat, r.BitDepthLumaMinus1, r.BitDepthChromaMinus1
+			r.ChromaFormat, r.BitDepthLumaMinus1, r.BitDepthChromaMinus1 = 0, 0, 0
+			undo = append(undo, func() { r.ChromaFormat, r.BitDepthLumaMinus1, r.BitDepthChromaMinus1 = cf, bl, bc })
+		}
+	}
+	return func() {
+		for _, u := range undo {
+			u()
+		}
+	}
+}
+
 func c19Ignore(path, field string) bool {
 	switch field {
 	case "StartPos", "readBoxSize", "readButNotParsed", "startPos", "decodedSize":
@@ -528,7 +637,7 @@ func c19Enumerate(depth int, full bool, fn func(h *c19History)) {
 
 func runC19(c *vf.Ctx) {
 	thorough := c.Tier == "thorough"
-	c.Rule = "explicit enumeration of all histories of AddEmptyTrack(timescale in {1,90000,2^32-1}, media in {video,audio,subtitle,stpp,text,wvtt,meta}, language in {en,sv,und,eng,en-US,zh-Hant-TW}) each followed by the matching Set{AVC,HEVC,AAC,AC3,EC3,Wvtt,Stpp}Descriptor call (17 track kinds incl. avc1/avc3 with and without parameter sets, two SPS/PPS sets, hvc1/hev1 with SEI, AAC-LC/HE-AAC, no descriptor); every prefix is a checked state: ids/trex/next-track-id, handler and media header, timescale and language carriage, sample entry contents, Encode==EncodeSW, Size, decode by both decoders, re-encode, deep equality with the built tree, and a fragment round trip for every track id; plus the full parameter products of SetAACDescriptor (13 frequencies x LC/HE/HEv2), SetAC3Descriptor (fscod x acmod x lfeon x bit rate code x bsmod), SetEC3Descriptor (data rate x fscod x acmod x lfeon x dependent substream) and SetStppDescriptor (namespace x schema location x auxiliary mime types) as the only track and as second track; every three-letter lower-case language code (all 17 576) and ten other tag shapes. Distinct = distinct encoded inits."
+	c.Rule = "explicit enumeration of all histories of AddEmptyTrack(timescale in {1,90000,2^32-1}, media in {video,audio,subtitle,stpp,text,wvtt,meta}, language in {en,sv,und,eng,en-US,zh-Hant-TW}) each followed by the matching Set{AVC,HEVC,AAC,AC3,EC3,Wvtt,Stpp}Descriptor call (17 track kinds incl. avc1/avc3 with and without parameter sets, two SPS/PPS sets, hvc1/hev1 with SEI, AAC-LC/HE-AAC, no descriptor); every prefix is a checked state: ids/trex/next-track-id, handler and media header, timescale and language carriage, sample entry contents, Encode==EncodeSW, Size, decode by both decoders, re-encode, deep equality with the built tree, and a fragment round trip for every track id; plus the full parameter products of SetAACDescriptor (13 frequencies x LC/HE/HEv2), SetAC3Descriptor (fscod x acmod x lfeon x bit rate code x bsmod), SetEC3Descriptor (data rate x fscod x acmod x lfeon x dependent substream) and SetStppDescriptor (namespace x schema location x auxiliary mime types), and SetAVCDescriptor / SetHEVCDescriptor with the parameter sets of every SPS-level deviation of the C15 generators (profiles, chroma formats, cropping, every aspect_ratio_idc incl. extended SAR, ...; dimensions judged against the reference syntax model), as the only track and as second track; every three-letter lower-case language code (all 17 576) and ten other tag shapes. Distinct = distinct encoded inits."
 	var n int64
 	run := func(depth int, full bool) {
 		var hs []*c19History
@@ -555,6 +664,12 @@ func runC19(c *vf.Ctx) {
 			for par := 0; par < c19NrParams(kind); par++ {
 				op := c19Op{Kind: kind, TS: 48000, Lang: "und", Par: par}
 				hs = append(hs, &c19History{Ops: []c19Op{op}}, &c19History{Ops: []c19Op{{Kind: 0, TS: 90000, Lang: "en-US"}, op}})
+			}
+		}
+		for kind := 24; kind <= 25; kind++ {
+			for par := 0; par < c19NrParams(kind); par++ {
+				op := c19Op{Kind: kind, TS: 90000, Lang: "und", Par: par}
+				hs = append(hs, &c19History{Ops: []c19Op{op}}, &c19History{Ops: []c19Op{{Kind: 6, TS: 48000, Lang: "en"}, op}})
 			}
 		}
 		local := make([]string, len(hs))
